@@ -496,6 +496,28 @@ class Check(Property):
                     if got != want:
                         v.append(f"C13 {sp!r} asked, then define({alias_line!r}), then asked again ({tname}): {got}; a registry that saw the alias "
                                  f"first answers {want}")
+            # base units asked under an explicitly named OTHER system first: the answers under the default system afterwards are
+            # those of a registry that was never asked
+            for tname in ("float", "fraction"):
+                for default in ("mks", "cgs", None):
+                    hist, plain_ = regs.fresh(tname), regs.fresh(tname)
+                    hist.default_system = plain_.default_system = default
+                    for un in ("inch", "pound", "dyne", "hour", "newton"):
+                        for other in SYSTEMS:
+                            if other != default:
+                                try:
+                                    hist.get_base_units(un, system=other)
+                                except Exception:  # noqa: BLE001
+                                    pass
+                        try:
+                            got = (str(hist.get_base_units(un)), str(hist.Quantity(1, un).to_base_units()))
+                            want = (str(plain_.get_base_units(un)), str(plain_.Quantity(1, un).to_base_units()))
+                        except Exception as exc:  # noqa: BLE001
+                            v.append(f"C13 base units of {un} (default system {default}) raised {type(exc).__name__}")
+                            continue
+                        if got != want:
+                            v.append(f"C13 get_base_units({un!r}, system=<each other system>) asked first, default system {default} ({tname}): "
+                                     f"get_base_units / to_base_units answer {got}; a registry never asked about other systems answers {want}")
             u = self.mkreg()
             with u.context("c13ctx"):
                 u.define("zork = 2 * meter")
